@@ -1143,24 +1143,27 @@ public:
   }
 
   // Region operations
+  // The region operations below are not modelled, but ref_load
+  // builds terms from the region and the reference, so a statement
+  // that (re)defines one of them must forget its term.
   virtual void region_init(const variable_t &reg) override {
-    // do nothing
+    operator-=(reg);
   }
 
   virtual void region_copy(const variable_t &lhs_reg,
                            const variable_t &rhs_reg) override {
-    // do nothing
+    operator-=(lhs_reg);
   }
 
   virtual void region_cast(const variable_t &src_reg,
                            const variable_t &dst_reg) override {
-    // do nothing
+    operator-=(dst_reg);
   }
 
   virtual void ref_make(const variable_t &ref, const variable_t &reg,
                         const variable_or_constant_t &size,
                         const allocation_site &as) override {
-    // do nothing
+    operator-=(ref);
   }
 
   virtual void ref_free(const variable_t &reg, const variable_t &ref) override {
@@ -1188,13 +1191,14 @@ public:
 
   virtual void ref_store(const variable_t &ref, const variable_t &reg,
                          const variable_or_constant_t &val) override {
-    // do nothing
+    // the contents of the region change
+    operator-=(reg);
   }
 
   virtual void ref_gep(const variable_t &ref1, const variable_t &reg1,
                        const variable_t &ref2, const variable_t &reg2,
                        const linear_expression_t &offset) override {
-    // do nothing
+    operator-=(ref2);
   }
 
   virtual void ref_assume(const reference_constraint_t &cst) override {
@@ -1209,7 +1213,7 @@ public:
 
   void int_to_ref(const variable_t &int_var, const variable_t &reg,
                   const variable_t &ref_var) override {
-    // do nothing
+    operator-=(ref_var);
   }
 
   void select_ref(const variable_t &lhs_ref, const variable_t &lhs_rgn,
@@ -1217,7 +1221,8 @@ public:
                   const boost::optional<variable_t> &rgn1,
                   const variable_or_constant_t &ref2,
                   const boost::optional<variable_t> &rgn2) override {
-    // do nothing
+    operator-=(lhs_ref);
+    operator-=(lhs_rgn);
   }
 
   boolean_value is_null_ref(const variable_t &ref) override {
